@@ -31,17 +31,17 @@ import (
 // every call runs under the watchdog.  No Coq cases (the state is not dumped after every step: a dump is linear in
 // the tables).  The failing input is the compact description below: the history is regenerated from it.
 type VolCase struct {
-	Parked     int    `json:"parked_logins"`               // logins waiting at the same time when the tail starts
-	Sessions   int    `json:"open_sessions"`               // login-less sessions open at the same time
-	HeldEach   int    `json:"held_per_open_session"`       // events each of them holds besides its LOGIN record
-	Held       int    `json:"held_by_one_session"`         // one more session holding this many; its login comes in the tail
-	Lifetime   int    `json:"lifetime_held_discarded"`     // at least this many held events are thrown away by session sweeps first
-	LoginLife  int    `json:"lifetime_logins_discarded"`   // at least this many waiting logins are thrown away by login sweeps first
-	PerRound   int    `json:"lifetime_entries_per_sweep"`  // sessions (logins) per sweep round
-	RoundHeld  int    `json:"lifetime_held_per_session"`   // events held by each swept session besides its LOGIN record
-	ProbeEvery int    `json:"probe_every"`                 // on average one probe session per this many entries
-	PickUps    int    `json:"pick_ups"`                    // waiting logins / open sessions whose other half arrives in the tail
-	Tail       string `json:"tail"`                        // pending | overtake | reuse | cleanup
+	Parked     int    `json:"parked_logins"`              // logins waiting at the same time when the tail starts
+	Sessions   int    `json:"open_sessions"`              // login-less sessions open at the same time
+	HeldEach   int    `json:"held_per_open_session"`      // events each of them holds besides its LOGIN record
+	Held       int    `json:"held_by_one_session"`        // one more session holding this many; its login comes in the tail
+	Lifetime   int    `json:"lifetime_held_discarded"`    // at least this many held events are thrown away by session sweeps first
+	LoginLife  int    `json:"lifetime_logins_discarded"`  // at least this many waiting logins are thrown away by login sweeps first
+	PerRound   int    `json:"lifetime_entries_per_sweep"` // sessions (logins) per sweep round
+	RoundHeld  int    `json:"lifetime_held_per_session"`  // events held by each swept session besides its LOGIN record
+	ProbeEvery int    `json:"probe_every"`                // on average one probe session per this many entries
+	PickUps    int    `json:"pick_ups"`                   // waiting logins / open sessions whose other half arrives in the tail
+	Tail       string `json:"tail"`                       // pending | overtake | reuse | cleanup
 	Seed       uint64 `json:"seed"`
 	Debug      bool   `json:"debug_logging,omitempty"`
 	IdentPool  int    `json:"ident_pool,omitempty"` // as History.IdentPool
